@@ -128,7 +128,8 @@ def random_case(rng, tier):
         if 'on' in action and (action['act'] != 'pause' or action['on'][0] in ('played', 'paused')):
             action.pop('on')
             action['at'] = rng.randint(0, ticks + 1)
-    return {'program': program, 'schedule': schedule, 'opts': common.with_communicator(rng, {})}
+    opts = common.with_communicator(rng, {})
+    return {'program': program, 'schedule': schedule, 'opts': opts}
 
 
 def shrink(case):
